@@ -225,7 +225,8 @@ func parseVersion(reader hashing.HashingReaderWrapper, version int) (int, error)
 	if err != nil {
 		return 0, err
 	}
-	version = int(readUint8 + 1)
+	//convert before adding, the addition must not wrap around for a version field of 255
+	version = int(readUint8) + 1
 	return version, nil
 }
 
